@@ -189,6 +189,10 @@ def run(tier, seed):
     add("a concurrent line fails while a long action runs", e2e_play(second_line="bad"), 8, 2, expect_fail=True, body_err=True)
     add("audit foul with -S during a long action", e2e_play(audience="audience\n  bob audits throughout\n  bob expects always: mood == 'clear'\nend\n"), 8, 2, args=["-S"], expect_fail=True, body_err=True)
     add("evaluation error", e2e_play(scene_x="quick", audience="audience\n  bob audits throughout\n  bob expects always: t < 'a'\nend\n"), 8, 2, expect_fail=True, body_err=True)
+    # an evaluation error that only shows in the FINAL audit round (after the prompter and the spotlights have
+    # finished: shutdown stage 3): the collector must still be told to terminate
+    add("evaluation error in the final audit round", e2e_play(scene_x="slow12", extra_actions="  :slow12 sleep 1.2",
+        audience="audience\n  judge audits throughout\n  judge computes y as t > 0.9 ? sqrt(mood) : 0\n  judge watches y\nend\n"), 10, 2, expect_fail=True, body_err=True)
     for _ in range(3 if tier == "quick" else 12):
         add("spotlight ignoring SIGHUP", e2e_play(scene_x="quick", spot="trap '' HUP; sleep 100"), 8, 2, expect_fail=None)
     add("spotlight with children", e2e_play(scene_x="quick", spot="sleep 100 & sleep 100 & wait"), 8, 2)
